@@ -285,8 +285,15 @@ def run(ctx: Ctx):
         "hand-written model coq/model/C09_Model.v tied to /repo by this correspondence run",
         "harness/props/C09.py (generators, canonicalisation, Python->Coq printers), harness/common.py",
         "PrimFloat primitives (binary64 mul/div/sub/compare) = the CPython float operations",
+        "harness/translate_arith.py: subdivide_batches / generate_batches are re-translated from the current source on "
+        "every run and proved equal to the model functions for all arguments (coq/gen_proofs/Arith_Utils_*.v)",
     ]
     ctx.proofs_or_violation()
+    try:  # the model's subdivide/generate_batches = the functions translated from the CURRENT source, by theorem
+        from ..arith_tie import run_tie
+        run_tie(ctx, ["subdivide_batches", "generate_batches"])
+    except Exception as e:  # noqa  (fail closed: the tie could not be established)
+        ctx.broken_obligation = "; ".join(filter(None, [ctx.broken_obligation, "arithmetic tie could not run: %r" % (e,)]))
     check_batcher(ctx)
     check_generate(ctx)
     check_toy_recon(ctx)
